@@ -4,11 +4,15 @@ PROP = dict(
     title="In-VM transaction introspection returns the executed transaction's data",
     family="gtf", harness="gtf", run_vo="Run/Gtf.vo",
     theorems=["C05_memory_layout", "C05_pointer", "C05_gm", "C05_unknown_selector", "C05_absent_index", "C05_large_rb",
-              "C05_type_ignores_rb_refuted", "C05_element_pointers"],
+              "C05_type_ignores_rb_refuted", "C05_element_pointers",
+              "C05_agree_config", "C05_agree_other_kind", "C05_agree_counts", "C05_agree_tx_length", "C05_init_stores_length",
+              "C05_agree_script_scalars", "C05_agree_gas_limit_other", "C05_agree_create_scalars", "C05_agree_upload_scalars",
+              "C05_agree_blob_scalars", "C05_agree_static_pointers"],
     open_statements=[
-        "C05_gtf_spec_statement: for every selector and $rB < 2^32 the model's answer equals what the decision table gtf_spec denotes (value = integer whose canonical bytes the C04 spec locates; "
-        "pointer = tx_offset + located position; specified panic otherwise) - not proved in general (C05_absent_index proves the out-of-range rows, C05_pointer the memory half for any located field); "
-        "executed on every observation of every correspondence case against the REAL VM memory (Run/Gtf.v spec_holds, gm_spec_holds)",
+        "C05_gtf_spec_statement: agreement of the model with the decision table (`agrees`: what the row denotes = what the model returns) for the 41 selectors of `open_selectors` when the index is in "
+        "range: the input / output / witness FIELD selectors (values and pointers), the script / script-data pointers, storage-slot / proof-entry pointers, InputContractOutputIndex. Proved so far for "
+        "these selectors: their out-of-range rows (C05_absent_index), their other-kind rows (C05_agree_other_kind), $rB >= 2^32 (C05_large_rb). Executed on every observation of every case against the "
+        "REAL VM memory (Run/Gtf.v spec_holds).",
     ],
     translators=["gtftable", "txconsts", "preparesign"],
     trusted_base=[
@@ -41,7 +45,7 @@ PROP = dict(
                 "transaction is held byte for byte by VM memory at tx_offset + offset (so every pointer selector whose offset is a C04 position dereferences to the field's canonical bytes); the GM "
                 "decision table; unknown selectors and out-of-range indices of the 35 element selectors give the specified panic; $rB >= 2^32 gives InvalidMetadataIdentifier for every selector. The per-"
                 "selector model (82 arms) is tied to a real Interpreter by a differential run that also executes the decision table on every answer against the real memory."),
-    level_note=("8 theorems proved (C05_element_pointers closes the nine element selectors end to end: pointer -> element bytes in memory / specified panic), Closed under the global context. Open: the general agreement of the 82-arm model with the decision table (values and pointers), executed per observation, not proved. "
+    level_note=("19 theorems proved. Agreement with the decision table is proved for 32 selectors (Type, 7 policies, 9 counts, TxLength, 11 body scalars, 4 static body pointers) + the 9 element pointers end to end + every other-kind row; 41 selectors open for in-range indices (C05_element_pointers closes the nine element selectors end to end: pointer -> element bytes in memory / specified panic), Closed under the global context. Open: the general agreement of the 82-arm model with the decision table (values and pointers), executed per observation, not proved. "
                 "Observation reported: GTF with $rB >= 2^32 panics with InvalidMetadataIdentifier even for selectors that ignore $rB (by design of convert::to_usize); GTF_OUTPUT_CONTRACT_INPUT_INDEX on a "
                 "non-contract / absent output panics with InputNotFound (not OutputNotFound)."),
     technique="Coq proof (memory layout + C04 locate_sound; decision tables by case analysis over generated selector types) + translator args.rs -> inductive selector types + differential run on a real Interpreter + reference oracle",
